@@ -33,6 +33,7 @@ type hostSpec struct {
 
 const pub4 = "93.184.216.34"
 const pub6 = "2606:4700:4700::1111"
+const pubB = "8.8.4.4" // second public address: answer of the redirect-start names, so that an IP rule on pub4 does not hit them
 
 var hosts = []hostSpec{
 	// names
@@ -108,6 +109,8 @@ var resQuick = []resSpec{
 	{"error", nil, true, false},
 }
 
+var resStart = resSpec{"public-b", []string{pubB}, false, true}
+
 var resThorough = append(append([]resSpec{}, resQuick...),
 	resSpec{"mixed-rev", []string{"10.0.0.1", pub4}, false, false},
 	resSpec{"mixed-46", []string{pub6, pub4, "fc00::1"}, false, false},
@@ -143,6 +146,8 @@ var rulesQuick = []ruleSet{
 	{"any", []string{"*"}},
 	{"cidr", []string{"10.0.0.0/8"}},
 	{"ip", []string{pub4}},
+	// the same private address as the CIDR above, written in IPv4-mapped notation ("IP literals in all notations")
+	{"ip-mapped", []string{"::ffff:10.0.0.1"}},
 }
 
 var rulesThorough = append(append([]ruleSet{}, rulesQuick...),
@@ -150,6 +155,7 @@ var rulesThorough = append(append([]ruleSet{}, rulesQuick...),
 	ruleSet{"ip6", []string{pub6}},
 	ruleSet{"cidr-public", []string{"93.184.216.0/24"}},
 	ruleSet{"name+cidr", []string{"NAME.example.", "192.168.0.0/16", "10.0.0.0/8"}},
+	ruleSet{"cidr6-linklocal+mapped-cidr", []string{"fe80::/10", "::ffff:10.0.0.0/104"}},
 )
 
 type polSpec struct {
@@ -170,10 +176,10 @@ type startSpec struct {
 }
 
 var starts = []startSpec{
-	{"https://name.example/start", "name.example", []lookup{{"name.example", 0}}},
-	{"https://hop.name.example/start", "hop.name.example", []lookup{{"hop.name.example", 0}}},
+	{"https://name.example/start", "name.example", []lookup{{"name.example", nil}}},
+	{"https://hop.name.example/start", "hop.name.example", []lookup{{"hop.name.example", nil}}},
 	{"https://" + pub4 + "/start", pub4, nil},
-	{"https://start.other.test/start", "start.other.test", []lookup{{"start.other.test", 0}}},
+	{"https://start.other.test/start", "start.other.test", []lookup{{"start.other.test", nil}}},
 	{"https://10.0.0.1/start", "10.0.0.1", nil},
 }
 
